@@ -26,16 +26,19 @@ theorem cast_subMod (a b : ℕ) (_ha : a < q) (hb : b < q) :
   · have : b ≤ a := by omega
     rw [Nat.cast_sub this]
 
-theorem cast_powLoop (e x r : ℕ) :
-    ((powLoop q e x r : ℕ) : ZMod q) = (r : ZMod q) * (x : ZMod q) ^ e := by
-  induction e using Nat.strong_induction_on generalizing x r with
-  | _ e ih =>
+theorem cast_powLoop (fuel e x r : ℕ) (hf : e ≤ fuel) :
+    ((powLoop q fuel e x r : ℕ) : ZMod q) = (r : ZMod q) * (x : ZMod q) ^ e := by
+  induction fuel generalizing e x r with
+  | zero =>
+    have : e = 0 := by omega
+    subst this; simp [powLoop]
+  | succ fuel ih =>
     rw [powLoop]
     split
     · next h => subst h; simp
     · next h =>
-      have hlt : e / 2 < e := by omega
-      rw [ih _ hlt]
+      have hlt : e / 2 ≤ fuel := by omega
+      rw [ih _ _ _ hlt]
       have he : e = 2 * (e / 2) + e % 2 := by omega
       have hx : ((x * x % q : ℕ) : ZMod q) = (x : ZMod q) ^ 2 := by
         rw [ZMod.natCast_mod, Nat.cast_mul, sq]
@@ -51,7 +54,7 @@ theorem cast_powLoop (e x r : ℕ) :
 
 theorem cast_powMod (x e : ℕ) : ((powMod q x e : ℕ) : ZMod q) = (x : ZMod q) ^ e := by
   unfold powMod
-  rw [cast_powLoop, ZMod.natCast_mod, Nat.cast_one, one_mul]
+  rw [cast_powLoop _ _ _ _ (Nat.le_refl e), ZMod.natCast_mod, Nat.cast_one, one_mul]
 
 theorem cast_inverse (a : ℕ) (ha : (a : ZMod q) ≠ 0) :
     ((inverse q a : ℕ) : ZMod q) = (a : ZMod q)⁻¹ := by
@@ -126,6 +129,8 @@ theorem cast_lagProdScalar (own : ℕ) (acts : List ℕ) (p : ℕ) :
 
 /-- pairwise distinct modulo `q` (the hypothesis the proof forces). -/
 def DistinctMod (q : ℕ) (S : List ℕ) : Prop := (S.map (· % q)).Nodup
+
+instance (q : ℕ) (S : List ℕ) : Decidable (DistinctMod q S) := by unfold DistinctMod; infer_instance
 
 theorem DistinctMod.cast_nodup {S : List ℕ} (h : DistinctMod q S) : (S.map ι).Nodup := by
   unfold DistinctMod at h
@@ -254,19 +259,34 @@ theorem scalar_reconstruct_nat (P : List (ℕ × List ℕ)) (hS : DistinctMod q 
     | nil => simp [ofList]
     | cons c cs' => simp [ofList]
 
+theorem lagProdScalar_lt (own : ℕ) (l : List ℕ) (p : ℕ) (hp : p < q) : lagProdScalar q own l p < q := by
+  induction l generalizing p with
+  | nil => exact hp
+  | cons x rest ih =>
+    unfold lagProdScalar
+    split
+    · exact ih _ (Nat.mod_lt _ q_pos)
+    · exact ih _ hp
+
 /-- order independence of the product loop: it only depends on the active points as a multiset. -/
 theorem lagProdScalar_perm (own : ℕ) {a b : List ℕ} (h : a.Perm b) (p : ℕ) (hp : p < q) :
     lagProdScalar q own a p = lagProdScalar q own b p := by
-  have hlt : ∀ (l : List ℕ), lagProdScalar q own l p < q := by
-    intro l
-    induction l generalizing p with
-    | nil => exact hp
-    | cons x rest ih =>
-      unfold lagProdScalar
-      split
-      · exact ih _ (Nat.mod_lt _ q_pos)
-      · exact ih _ hp
-  apply nat_eq_of_cast_eq (hlt a) (hlt b)
+  apply nat_eq_of_cast_eq (lagProdScalar_lt own a p hp) (lagProdScalar_lt own b p hp)
   rw [cast_lagProdScalar, cast_lagProdScalar, ((h.filter _).map _).prod_eq]
+
+/-- an active point that differs from `own` as an integer but not modulo `q > 2` makes the whole
+product `0`. -/
+theorem lagProdScalar_collide (own : ℕ) (acts : List ℕ) (p : ℕ) (hp : p < q) (h2 : 2 < q)
+    (a : ℕ) (ha : a ∈ acts) (hne : a ≠ own) (hcol : a % q = own % q) :
+    lagProdScalar q own acts p = 0 := by
+  have hz : ((lagProdScalar q own acts p : ℕ) : ZMod q) = 0 := by
+    rw [cast_lagProdScalar]
+    apply mul_eq_zero_of_right
+    apply List.prod_eq_zero
+    rw [List.mem_map]
+    refine ⟨a, List.mem_filter.mpr ⟨ha, by simpa using hne⟩, ?_⟩
+    rw [lagrangeCoeff_collide own a h2 hcol, Nat.cast_zero]
+  rw [ZMod.natCast_eq_zero_iff] at hz
+  exact Nat.eq_zero_of_dvd_of_lt hz (lagProdScalar_lt own acts p hp)
 
 end Lattigo.Proofs.Shamir
